@@ -5,6 +5,9 @@ d=$1; shift
 git -C /repo status --short | grep -v '^??' | grep . && { echo "/repo dirty"; exit 2; }
 git -C /repo apply "$d/patch.diff" || { echo "patch does not apply"; exit 2; }
 for id in "$@"; do
+  # evidence committed under /verif must describe runs on the unchanged tree: keep it aside
+  cp /verif/evidence/$id.json /tmp/evidence_$id.bak 2>/dev/null
   /verif/check "$id" --tier quick 2>&1 | grep -a "VIOLATION\|quick:\|INCONCLUSIVE\|HARNESS" | head -5
+  cp /tmp/evidence_$id.bak /verif/evidence/$id.json 2>/dev/null
 done
 git -C /repo checkout -- .
